@@ -46,7 +46,9 @@ D1 == E(1, "AUTOSAR", RootAttrs("AUTOSAR_00050.xsd"), <<Ch(
           E(3, "AR-PACKAGE", <<A("UUID", <<"u", "&", "1">>)>>, <<
              Ch(Leaf(4, "SHORT-NAME", S("a"))),
              Ch(E(5, "DESC", <<>>, <<Ch(E(6, "L-2", <<A("L", S("EN"))>>,
-                    <<Tx(<<"x", "&", "y", " ", "<", "t", ">", " ", "'", "\"", " ", "EACUTE", "SMILE">>), Ch(Leaf(7, "TT", S("tech"))), Tx(<<" ", "e", "n", "d">>)>>))>>)),
+                    <<Tx(<<"x", "&", "y", " ", "<", "t", ">", " ", "'", "\"", " ", "EACUTE", "SMILE">>),
+                      \* an inline element of mixed content with a comment of its own
+                      Ch(EC(7, "TT", <<>>, "note", <<Tx(S("tech"))>>)), Tx(<<" ", "e", "n", "d">>)>>))>>)),
              Ch(Leaf(8, "CATEGORY", S("TXT"))),
              Ch(E(21, "ADMIN-DATA", <<>>, <<Ch(E(25, "DOC-REVISIONS", <<>>, <<Ch(E(26, "DOC-REVISION", <<>>,
                     <<Ch(Leaf(27, "REVISION-LABEL", <<"1", ".", "0", ".", "0", ";", "a", "&", "b">>))>>))>>)), Ch(E(22, "SDGS", <<>>, <<Ch(E(23, "SDG", <<A("GID", S("g"))>>,
@@ -56,7 +58,10 @@ D1 == E(1, "AUTOSAR", RootAttrs("AUTOSAR_00050.xsd"), <<Ch(
                  Ch(E(13, "I-SIGNAL", <<>>, <<Ch(Leaf(14, "SHORT-NAME", S("i"))), Ch(Leaf(15, "DATA-TYPE-POLICY", S("LEGACY"))),
                         Ch(Leaf(16, "LENGTH", S("8"))),
                         Ch(E(17, "SYSTEM-SIGNAL-REF", <<A("DEST", S("SYSTEM-SIGNAL"))>>, <<Tx(S("/a/s"))>>))>>)),
-                 Ch(E(18, "SYSTEM", <<>>, <<Ch(Leaf(19, "SHORT-NAME", S("sys"))), Ch(E(20, "FIBEX-ELEMENTS", <<>>, <<>>))>>))
+                 Ch(E(18, "SYSTEM", <<>>, <<Ch(Leaf(19, "SHORT-NAME", S("sys"))), Ch(E(20, "FIBEX-ELEMENTS", <<>>, <<>>))>>)),
+                 \* float-typed values: a finite one and the negative infinity
+                 Ch(E(28, "UNIT", <<>>, <<Ch(Leaf(29, "SHORT-NAME", S("u"))), Ch(Leaf(30, "FACTOR-SI-TO-UNIT", <<"1", ".", "5">>)),
+                        Ch(Leaf(31, "OFFSET-SI-TO-UNIT", <<"-", "I", "N", "F">>))>>))
                >>))
           >>))>>))>>)
 \* D2: oldest version, nested packages, an empty ELEMENTS
@@ -86,7 +91,8 @@ Styles == {[q |-> q, ws |-> w, empty |-> e, enc |-> c, hdr |-> h] :
 Quote(st) == IF st.q = "dq" THEN "\"" ELSE "'"
 RECURSIVE Indent(_)
 Indent(d) == IF d = 0 THEN "" ELSE "  " \o Indent(d - 1)
-Ws(st, d) == CASE st.ws = "nl" -> "\n" \o Indent(d) [] st.ws = "crlf" -> "\r\n" \o Indent(d) [] OTHER -> ""
+Ws(st, d) == IF d < 0 THEN "" ELSE
+            CASE st.ws = "nl" -> "\n" \o Indent(d) [] st.ws = "crlf" -> "\r\n" \o Indent(d) [] OTHER -> ""
 TagSp(st) == IF st.ws = "tagsp" THEN " " ELSE ""
 ElementOnly(node) == \A j \in 1..Len(node.i) : node.i[j].t = "e"
 
@@ -125,7 +131,8 @@ RenderItems(node, items, st, d, df) ==
   ELSE LET it == Head(items) IN
        (IF it.t = "c" THEN EncText(it.v, st.enc, "text")
         ELSE IF df.k = "dropchild" /\ df.at = node.id /\ df.p = it.e.n THEN ""
-        ELSE LET r == (IF ElementOnly(node) THEN Ws(st, d) ELSE "") \o RenderNode(it.e, st, d, df) IN
+        \* (an inline element of mixed content gets no formatting white space, neither before it nor after its comment)
+        ELSE LET r == (IF ElementOnly(node) THEN Ws(st, d) ELSE "") \o RenderNode(it.e, st, IF ElementOnly(node) THEN d ELSE -1, df) IN
              IF df.k = "dupchild" /\ df.at = node.id /\ df.p = it.e.n THEN r \o r ELSE r)
        \o RenderItems(node, Tail(items), st, d, df)
 
